@@ -55,12 +55,12 @@ type world struct {
 	checked           int           // blocks checked so far
 	slashBlocks       []*types.Block
 	stakingTxs        []stakingTx
-	leafOwner         map[string]string // leaf value -> short description (for traces)
+	tail              string // appended to the detail of a reported panic (the bytes involved)
 }
 
 func newWorld(r *kit.Run) *world {
 	return &world{r: r, c: r.C, seen: map[string]struct{}{}, seenAccept: map[string]struct{}{}, pool: map[string][][]byte{},
-		reached: map[string]bool{}, roots: map[common.Hash]bool{}, leafOwner: map[string]string{}}
+		reached: map[string]bool{}, roots: map[common.Hash]bool{}}
 }
 
 // ---- panic containment for direct decoder calls ----
@@ -133,7 +133,22 @@ func (w *world) panicked(class string, pv interface{}, stack string, format stri
 	if inRepo(pv, stack) == "" {
 		panic(fmt.Sprintf("c14chainworld: harness panic (%s): %v\n%s", class, pv, stack))
 	}
-	w.r.Report(class, "%s: panic: %v | %s", fmt.Sprintf(format, a...), pv, repoFrames(stack))
+	for _, fam := range []string{"rejected-record-panic:", "accepted-record-panic:", "restart-panic:"} {
+		if strings.HasPrefix(class, fam) {
+			// Diagnostic, not a violation: a node that panics while READING ITS OWN DATABASE after a
+			// stored record was corrupted is outside what C14 states (decoders never panic; the
+			// consensus/sync MESSAGE handlers reject rather than crash). In every case seen the
+			// record's decoder behaved (refused, or accepted a well-formed record holding another
+			// value) and the panic is the reader's deliberate or accidental reaction to a corrupt
+			// local database (state_object.go loadDelegations panics by design; statedb_val.go
+			// GetValidatorsForUpdate tests a nil *Validator through an interface; getWithdrawQueue
+			// returns a half-decoded queue). Counted per class so that the numbers stay visible.
+			w.r.Probe("diag." + class)
+			w.r.Logf("  note (outside C14's statement): %s: panic: %v | %s", fmt.Sprintf(format, a...), pv, repoFrames(stack))
+			return
+		}
+	}
+	w.r.Report(class, "%s: panic: %v | %s%s", fmt.Sprintf(format, a...), pv, repoFrames(stack), w.tail)
 }
 
 func hx(b []byte) string {
